@@ -562,10 +562,10 @@ LEVEL_TEXT = {
            'suite (random, mutated, documented-spelling and ALL short strings through all eight entry points) and the no-panic oracle.',
     'C19': 'PARTIAL proof: the printer model is proved to parenthesise exactly the nested operators the parser would regroup and to lay out rules and unifications as '
            'documented; parse(show v) = v is proved for token-level terms. The round trip for structured terms, goals and rules is decided by the grammar stream on the '
-           'implementation, with the model parser and printer compared on every case. Nested parenthesised groups are generated since repair D18 (former finding F2).',
+           'implementation, with the model parser and printer compared on every case. Nested parenthesised groups are generated since repair D18 (former finding F2); double-quoted atoms (with separators, brackets and parentheses between the quotes) since D22-D24. Open known finding F5: an atom that needs its quotes is printed without them.',
     'C20': 'PARTIAL proof: for every token text (no blanks, none of [ ] ( ) , " \\ |: atoms, signed numbers, variables, $_) all five contexts - alone, argument, list element, '
            'infix operand, query argument - are proved to hand the text to the same make_term with the same classification flags, so they yield the same term, for every '
-           'fuel. Structured texts are decided by the contexts stream (random canonical terms, 90 special spellings, and ALL strings up to length 4 / 5 over the 12 characters the scanners treat specially, each in eight contexts). Stating the structured version exposed and led to the repair of D19-D22. Open known findings: F3 (arithmetic infix as an argument), F4 (quotes and backslashes below the top level of a text).',
+           'fuel. Structured texts are decided by the contexts stream (random canonical terms, 90 special spellings, and ALL strings up to length 4 / 5 over the 12 characters the scanners treat specially, each in eight contexts). Stating the structured version exposed and led to the repair of D19-D23. Open known findings: F3 (arithmetic infix as an argument), F4 (backslashes below the top level of a text).',
     'C21': 'Proved in Lean on the reader model, with the rule parser as a parameter: a file is rejected or its knowledge base is exactly parse_rule of each separated rule text, '
            'in order; the separation returns exactly the rule texts of a concatenation (decimal points, periods inside brackets and quotes never end a rule); the joined text '
            'is the stripped non-empty lines with one blank after every unfinished line; a line (indentation, piece, blanks, optional # / % / // comment) is stripped to '
